@@ -225,7 +225,7 @@ def reexec_coverage(ck, res, byid):
     """how far the search reaches re-execution: cases whose judged statement is the one a re-used plan object returned for a
     later window, those with a label filter behind a relabelling stage, and the evaluations among them that tell the two
     windows apart (the reference for the last window keeps a line, or the database holds a line of the first window only)"""
-    n, behind, wanted, stale, three = 0, 0, 0, 0, 0
+    n, behind, wanted, stale, three, day_back, day_back_wanted = 0, 0, 0, 0, 0, 0, 0
     for cid, v in res.items():
         c = byid[cid]
         if not c.get("rewin") or not v["ctx_ok"]:
@@ -235,16 +235,27 @@ def reexec_coverage(ck, res, byid):
         behind += 1 if "filter-behind-relabel" in (c.get("class") or []) else 0
         f = c["first_ctx"]
         lo, hi = c["ctx"]["from_ns"], c["ctx"]["to_ns"]
+        d1, d2 = (f["from_ns"] - 1800 * 10**9) // DAY_NS, (lo - 1800 * 10**9) // DAY_NS
+        day_back += 1 if d2 < d1 else 0
+        if d2 < d1:    # databases in which a wanted line belongs to a stream indexed only before the first call's day bound
+            for k, d in enumerate(v["dbs"]):
+                last = {}
+                for s in c["dbs"][k]["series"]:
+                    last[s["fp"]] = max(last.get(s["fp"], -1), s["day"])
+                if d["nwant"] > 0 and any(lo <= x["ts"] < hi and last.get(x["fp"], d1) < d1 for x in c["dbs"][k]["samples"]):
+                    day_back_wanted += 1
         for k, d in enumerate(v["dbs"]):
             wanted += 1 if d["nwant"] > 0 else 0
             stale += 1 if any(f["from_ns"] <= x["ts"] < f["to_ns"] and not lo <= x["ts"] < hi for x in c["dbs"][k]["samples"]) else 0
     ck.obligation("re-execution: one plan object processed two or three times with different windows (tail), the LAST statement judged against the LAST window "
                   "(%d cases, %d with three calls, %d with a label filter behind json / regexp / drop; evaluations whose reference keeps a line: %d; "
-                  "databases holding a line inside the first window and outside the last: %d)" % (n, three, behind, wanted, stale),
-                  ck.replay or (n >= 30 and behind >= 12 and wanted >= 15 and stale >= 40), "")
+                  "databases holding a line inside the first window and outside the last: %d; cases whose last window has an EARLIER day bound than the first: %d, "
+                  "databases among them with a wanted line of a stream indexed only before the first call's day: %d)" % (n, three, behind, wanted, stale, day_back, day_back_wanted),
+                  ck.replay or (n >= 30 and behind >= 12 and wanted >= 15 and stale >= 40 and day_back >= 3 and day_back_wanted >= 2), "")
     ck.extra.setdefault("input_distribution", {})["re_execution (semantic search)"] = {
         "cases": n, "three_calls": three, "label_filter_behind_relabelling_stage": behind,
-        "evaluations_whose_reference_keeps_a_line": wanted, "databases_with_a_line_of_the_first_window_only": stale}
+        "evaluations_whose_reference_keeps_a_line": wanted, "databases_with_a_line_of_the_first_window_only": stale,
+        "last_window_has_an_earlier_day_bound": day_back, "databases_with_a_wanted_line_of_a_stream_indexed_only_before_the_first_day_bound": day_back_wanted}
 
 
 def pipeline(ck, tag, cases, ndb):
